@@ -16,7 +16,7 @@ META = {
     "bounds": {"quick": {"n": "0..3", "key range": "0..3 (lst -1..3)"}, "thorough": {"n": "0..4", "key range": "0..4"}},
     "outside": ["lists longer than the bound", "non-integer key values", "nan keys"],
 }
-REQUIRED_COVERS = {"any": ["task:reordered", "task:tie", "worker:reordered", "worker:mw-equal-not-identical", "facility:reordered", "workplace:reordered"]}
+REQUIRED_COVERS = {"any": ["task:reordered", "task:tie", "worker:reordered", "worker:mw-equal-not-identical", "facility:reordered", "workplace:reordered", "c11:strict-priority-pair"]}
 
 TASK_MODES = list(range(9))
 
@@ -228,7 +228,42 @@ def sort_workplaces(p, ctx):
             ctx.cover("workplace:reordered")
 
 
+def sim(p, ctx):
+    from props.simcore import run_sim
+    from props import oracles
+
+    M = run_sim(p, ctx)
+    oracles.c11(M, ctx)
+
+
+def integration_obligations(tier):
+    """Allocation under contention for every task priority rule (zsym engine)."""
+    from props import profiles
+
+    thorough = tier == "thorough"
+    obs = []
+    for rule in range(9):
+        for shape, es in (("indep", []), ("fork", [(0, 1, 0), (0, 2, 0)]), ("join", [(0, 2, 0), (1, 2, 0)])):
+            for nw in (1, 2):
+                for variant in ("plain", "skills", "fix"):
+                    tasks = [{"w": "$w%d" % i} for i in range(3)]
+                    if variant == "fix":
+                        tasks[1]["fixw"] = [0]
+                    ws = [{"skills": {str(i): ("$s%d" % i if (variant == "skills" and w == 0) else 1) for i in range(3)}, "abs": (["$a0"] if w == 0 else [])} for w in range(nw)]
+                    spec = {"tasks": tasks, "edges": [list(e) for e in es], "teams": [{"targets": [0, 1, 2], "workers": ws}], "run": {"max_time": 12, "rule": rule}}
+                    params = [["w%d" % i, 1, 3 if thorough else 2] for i in range(3)] + [["a0", -1, 2]]
+                    if variant == "skills":
+                        params += [["s%d" % i, 0, 2] for i in range(3)]
+                    obs.append({"name": "alloc/rule=%d/%s/W=%d/%s" % (rule, shape, nw, variant), "harness": "sim", "cube": {"spec": spec}, "params": params,
+                                "timeout": 900 if thorough else 150, "engine": "zsym"})
+    return obs
+
+
 def obligations(tier, seed):
+    return unit_obligations(tier, seed) + integration_obligations(tier)
+
+
+def unit_obligations(tier, seed):
     thorough = tier == "thorough"
     nmax = 4 if thorough else 3
     K = 4 if thorough else 3
